@@ -49,6 +49,10 @@ func MigrateToLatest(data []byte, cfg *Config) ([]byte, error) {
 
 // MigrateToVersion migrates the given flow definition to the given version
 func MigrateToVersion(data []byte, to *semver.Version, cfg *Config) ([]byte, error) {
+	if cfg == nil {
+		cfg = DefaultConfig
+	}
+
 	// try to read new style header (uuid, name, spec_version)
 	header := &Header13{}
 	err := utils.UnmarshalAndValidate(data, header)
